@@ -6,6 +6,7 @@ import NixModel.Store.CopyFrames
 import NixModel.Lemmas.StoreWF
 import NixModel.Lemmas.C20Shallow
 import NixModel.Lemmas.C20Handle
+import NixModel.Generated.HandleSites
 
 /-!
 # C20 — copies are complete, independent, and keep their internal links
@@ -1452,6 +1453,26 @@ example :
     ((callerByHandle Gen.h5GroupCopy { Gen.sectionCopySection with srcAddr := .parentPath } pathDemo pathDemo 1
         linkHandle "y" true true).toOption.map fun r => r.1.getAttr r.2 "definition") =
       some (some "another one") := by decide
+
+open Nix.Store.CopyShape in
+/-- **where nixio constructs handles** (`Gen.handleSites`: every constructor call of an entity class in
+nixio/*.py, read by harness/extract/handlesites.py): every site constructs the handle with the parent that owns
+the object (`HandleSite.owned`: container entries, members of link lists, `multi_tag.positions / extents`,
+`feature.data`, `create_*`, a section's own properties) - or it hands out a *Section* (the `metadata` getters:
+no parent; `Section.link`: the linking section), the kind whose copy names the source by its object
+(`section_copies_address_the_object`). So no handle of a kind whose copy is path-addressed is constructed with
+a parent that does not own it; a new getter that does so, or `LinkContainer` constructing its items with the
+group / tag instead of the block, changes the table and this theorem no longer builds -/
+theorem handle_sites_owned_or_section :
+    (∀ s ∈ Gen.handleSites, s.owned = true ∨ s.item = "Section") ∧
+    (∀ s ∈ Gen.handleSites, s.item ∈ ["Block", "DataArray", "DataFrame", "Tag", "MultiTag", "Property", "item"] →
+      s.owned = true) ∧
+    (∀ sh ∈ entryPoints, sh.srcKind = "section" → sh.srcAddr = .object) := by decide
+
+open Nix.Store.CopyShape in
+/-- non-vacuity: there *are* sites that hand out handles without the owning parent (all of them Sections) -/
+example : ((Gen.handleSites.filter fun s => !s.owned).map fun s => (s.method, s.item)).eraseDups =
+    [("metadata", "Section"), ("link", "Section")] := by decide
 
 /-! ### non-vacuity of the source-shape theorems; what a narrower visitor would do -/
 
